@@ -24,7 +24,7 @@ Proof. exact delete_preserves. Qed.
 Theorem C11_delete_refines : forall K d s name ch d1 x s1 r data,
   0 < K -> inv K d -> Rel K d s ->
   step true K d (Delete name) ch = (d1, x) ->
-  spec_step K s (Delete name) (image K d1 (nf d1)) = Some (s1, r, data) ->
+  spec_step K s (Delete name) (ores x, image K d1 (nf d1)) = Some (s1, r, data) ->
   inv K d1 /\ Rel K d1 s1 /\ ores x = r /\ live s1 = live s.
 Proof. exact delete_refines. Qed.
 
@@ -65,8 +65,24 @@ Theorem C11_raw_remove_guarded_refuses_base : forall d name,
   find_name d name (nf d) = 1 -> remove_g true d name = (d, RErr).
 Proof. exact raw_remove_guarded_refuses_base. Qed.
 
+(** One pass of the background cleaner's loop body (sync.InternalSnapshotCleaner: candidate list, first
+    candidate, PrepareRemoveDisk, merge by the sync agent, RemoveDiffDisk), whatever the sync agent answers to
+    the merge request: the live image is unchanged; every retained user-created snapshot is still a retained
+    member with the same name and image; when the merge failed the chain and all files are exactly as before
+    (the snapshot is still a member, only marked Removed), and a failure is only ever reported in that case. *)
+Theorem C11_cleaner_pass_preserves : forall K d c victim fail, inv K d -> c <> 0%N ->
+  let '(d1, r) := clean d (Some c) victim fail in
+  inv K d1 /\ nblk d1 = nblk d /\ image K d1 (nf d1) = image K d (nf d) /\
+  (forall k, 1 <= k < nf d -> usr d k = true -> rmd d k = false ->
+     exists k', 1 <= k' < nf d1 /\ nm d1 k' = nm d k /\ usr d1 k' = true /\ rmd d1 k' = false /\
+                image K d1 k' = image K d k) /\
+  (fail = true -> nf d1 = nf d /\ nm d1 = nm d /\ fl d1 = fl d) /\
+  (r = RErr -> fail = true /\ In victim (candidates d (Some c))).
+Proof. exact clean_preserves. Qed.
+
 (** The executable statement of C11 on observed traces (the oracle evaluated on the implementation's
-    observations: around every PrepareRemoveDisk / deletion / raw remove / candidate query the live image,
+    observations: around every PrepareRemoveDisk / deletion / raw remove / candidate query / pass of the
+    background cleaner (merge performed or failed by the sync agent) the live image,
     the chain and every other retained user-created snapshot are as the property says) holds on every
     trace of the model whose operations stay inside the specification's domain: no raw fold, no raw
     remove of a base or middle member, no deletion that merges into a retained user-created snapshot,
@@ -77,6 +93,7 @@ Theorem C11_oracle_holds_on_model : forall K nb p rv (h : list (op * list bool))
 Proof. exact c11_oracle_model. Qed.
 
 Print Assumptions C11_oracle_holds_on_model.
+Print Assumptions C11_cleaner_pass_preserves.
 Print Assumptions C11_delete_preserves.
 Print Assumptions C11_delete_refines.
 Print Assumptions C11_protected_refused.
